@@ -298,6 +298,7 @@ std::string Esc(const std::string& s) {
 
 // ---------------------------------------------------------------- fuzz-mode bookkeeping
 std::string g_dir;          // VF_C37_DIR: where stats / escapes are written
+std::string g_tag = "x";    // VF_C37_TAG: which kind of fuzzer process this is (prefix of the stats files)
 long g_execs = 0, g_reached_mjcf = 0, g_reached_urdf = 0, g_otherroot = 0, g_parsed = 0, g_compiled = 0, g_saved = 0,
      g_schema_rej = 0, g_escapes = 0, g_loads = 0;
 std::vector<uint64_t> g_hashbuf;
@@ -311,7 +312,7 @@ void FlushStats() {
     g_hashbuf.clear();
   }
   char path[600];
-  snprintf(path, sizeof path, "%s/stats/%d.txt", g_dir.c_str(), getpid());
+  snprintf(path, sizeof path, "%s/stats/%s_%d.txt", g_dir.c_str(), g_tag.c_str(), getpid());
   FILE* f = fopen(path, "w");
   if (!f) return;
   fprintf(f, "execs %ld\nreached_mjcf %ld\nreached_urdf %ld\nother_root %ld\nparsed %ld\ncompiled %ld\nsaved %ld\n"
@@ -334,7 +335,7 @@ void FuzzRecord(const uint8_t* data, size_t size, const Result& r) {
   if (r.reached >= 2 && !g_dir.empty()) {
     if (g_hashfd < 0) {
       char path[600];
-      snprintf(path, sizeof path, "%s/stats/%d.hashes", g_dir.c_str(), getpid());
+      snprintf(path, sizeof path, "%s/stats/%s_%d.hashes", g_dir.c_str(), g_tag.c_str(), getpid());
       g_hashfd = open(path, O_WRONLY | O_CREAT | O_APPEND, 0644);
     }
     g_hashbuf.push_back(Fnv(data, size));
@@ -472,6 +473,8 @@ extern "C" int LLVMFuzzerInitialize(int* argc, char*** argv) {
   }
   const char* d = getenv("VF_C37_DIR");
   if (d) g_dir = d;
+  const char* tg = getenv("VF_C37_TAG");
+  if (tg && *tg) g_tag = tg;
   Install();
   atexit(FlushStats);
   return 0;
